@@ -90,14 +90,24 @@ def _one(d, ctx, kind, tier_all, **kw):
     m0 = ctx.lib(mm.fit, case, allow_if=mm.explicit_refusal)
     if mm.ill_conditioned(m0, case, bingham_limit=-1e10 if sharp else -1e6):
         raise Borderline('fit sits on a numerical guard')
-    p0 = mm.params(m0, case)
-    post0 = ctx.lib(mm.predict, m0, case)
+    K = case.K
     if K <= 4 and tier_all:
         perms = [list(p) for p in itertools.permutations(range(K))][1:]
     else:
         perms = []
         for _ in range(3 if K <= 4 else 2):
             perms.append(d.perm(K))
+    checked = _relabelled_fits(ctx, case, kind, m0, perms)
+    ctx.nontrivial(checked > 0)
+    ctx.label(f'perms={min(checked, 6)}')
+
+
+def _relabelled_fits(ctx, case, kind, m0, perms):
+    """fit again from every relabelled start and compare model and posteriors
+    with the relabelled first fit; returns the number of starts compared"""
+    K = case.K
+    p0 = mm.params(m0, case)
+    post0 = ctx.lib(mm.predict, m0, case)
     checked = 0
     for perm in perms:
         if perm == list(range(K)):
@@ -136,8 +146,7 @@ def _one(d, ctx, kind, tier_all, **kw):
         require_close(post0[..., perm, :], post1, 'posterior-not-equivariant',
                       atol=atol, what=f'perm={perm}', kind=kind)
         checked += 1
-    ctx.nontrivial(checked > 0)
-    ctx.label(f'perms={min(checked, 6)}')
+    return checked
 
 
 def _make(kind, quick, thorough, **kw):
@@ -155,3 +164,174 @@ _make('gmm', 250, 4000, max_iterations=8, max_K=6, max_D=5)
 _make('vmfmm', 200, 3500, max_iterations=8, max_K=6, max_D=5)
 _make('gcacgmm', 180, 3000, max_K=4, max_D=4, max_iterations=6)
 _make('vmfcacgmm', 180, 3000, max_K=4, max_D=4, max_iterations=6)
+
+
+# ------------------------------------------------ starts next to a decision boundary
+# The integration models with their built-in alignment take a discrete decision
+# in every E-step (which spatial class goes with which spectral class, per
+# frequency).  Random starts are never close to a point where that decision
+# changes; there, relabelling must still not matter as long as the two best
+# candidates differ by clearly more than rounding.  Such a start is *searched*:
+# on the segment between two generated starts with different decisions the
+# library's own decision (observed through the hook) is bisected down to the
+# resolution of double precision, then the start is moved away from the boundary
+# until the reference criterion separates the two candidates by about 1e-9
+# relative - four orders of magnitude above the rounding of the criterion.
+
+def _pairing_values(case, prev, f):
+    """reference value of the alignment criterion for every pairing at bin f
+    (model ``prev``), and the list of pairings"""
+    spatial, spectral = mm.oracle_stream_log_pdfs(prev, case)
+    spatial = prev.spatial_weight * spatial
+    spectral = prev.spectral_weight * spectral
+    vals, perms = [], list(itertools.permutations(range(case.K)))
+    for perm in perms:
+        lp = spatial[f][list(perm)] + spectral[f]
+        a = np.exp(lp - lp.max(axis=0, keepdims=True))
+        a = a / np.maximum(a.sum(axis=0, keepdims=True), np.finfo(float).tiny)
+        vals.append(float(np.sum(a * lp)))
+    return np.array(vals), perms
+
+
+def _observed_decision(case, init):
+    """(index of the pairing the library chose at every bin in the E-step after
+    the first M-step, the model of that M-step, margins of the reference
+    criterion) or None when the decision cannot be read off"""
+    from pb_bss import _verif
+    trace = []
+
+    def cb(**k):
+        trace.append((k['model'], np.array(k['affiliation'], copy=True)))
+    c = case.copy(init=init, iterations=2)
+    _verif.register(cb)
+    try:
+        mm.fit(c)
+    finally:
+        _verif.unregister(cb)
+    if len(trace) != 2:
+        return None
+    prev, aff = trace[0][0], trace[1][1]
+    F, K, N = case.lead[0], case.K, case.N
+    spatial, spectral = mm.oracle_stream_log_pdfs(prev, case)
+    spatial = prev.spatial_weight * spatial
+    spectral = prev.spectral_weight * spectral
+    wb = np.broadcast_to(np.asarray(mm.weight_broadcast(prev, case), dtype=float), (F, K, N))
+    eps = case.opts.get('affiliation_eps', 1e-10) or 0.0
+    chosen = []
+    perms = list(itertools.permutations(range(K)))
+    for f in range(F):
+        hit = []
+        for i, perm in enumerate(perms):
+            lp = spatial[f][list(perm)] + spectral[f]
+            num = wb[f] * np.exp(lp - lp.max(axis=0, keepdims=True))
+            p = num / np.maximum(num.sum(axis=0, keepdims=True), np.finfo(float).tiny)
+            p = np.clip(p, eps, 1 - eps) if eps else p
+            if np.allclose(p, aff[f], rtol=0, atol=1e-7):
+                hit.append(i)
+        if len(hit) != 1:
+            return None
+        chosen.append(hit[0])
+    return chosen, prev
+
+
+@subcheck(SUBCHECKS, 'relabel_next_to_a_pairing_boundary', quick=40, thorough=600,
+          min_nontrivial=0.0)
+def relabel_next_to_a_pairing_boundary(d, ctx):
+    kind = d.choice(['gcacgmm', 'vmfcacgmm'])
+    case = mm.draw_case(
+        d, [kind], degenerate=False, general_position=True,
+        single_precision=False, allow_scale=False, allow_num_classes=False,
+        allow_aligner=False, regular_share=False, positive_saliency_only=True,
+        stable_only=True, min_K=3, max_K=3, max_D=3, max_iterations=2, options=False)
+    case.opts = dict(inline_permutation_alignment=True, weight_constant_axis=(-1,))
+    case.iterations = 2
+    if case.init.shape != case.aff_shape:
+        case.init = np.broadcast_to(case.init, case.aff_shape).copy()
+    rng = d.rng()
+    A0 = case.init
+    A1 = np.moveaxis(rng.dirichlet(np.ones(case.K) * 0.7, size=(*case.lead, case.N)), -1, -2)
+    ctx.describe(**case.describe())
+    ctx.label(kind)
+
+    def start(s):
+        return (1 - s) * A0 + s * A1
+
+    lo, hi = 0.0, 1.0
+    dlo, dhi = _observed_decision(case, start(lo)), _observed_decision(case, start(hi))
+    if dlo is None or dhi is None or dlo[0] == dhi[0]:
+        raise Borderline('no decision boundary between the two starts')
+    for _ in range(70):
+        mid = 0.5 * (lo + hi)
+        if mid in (lo, hi):
+            break
+        dm = _observed_decision(case, start(mid))
+        if dm is None:
+            raise Borderline('decision not readable on the segment')
+        if dm[0] == dlo[0]:
+            lo = mid
+        else:
+            hi, dhi = mid, dm
+    # the bin(s) whose decision changes between lo and hi, and the two pairings
+    f_changed = [f for f in range(case.lead[0]) if dlo[0][f] != dhi[0][f]]
+    if len(f_changed) != 1:
+        raise Borderline('several decisions change at once')
+    f = f_changed[0]
+    i_lo, i_hi = dlo[0][f], dhi[0][f]
+
+    def margin(s):
+        dec = _observed_decision(case, start(s))
+        if dec is None:
+            return None
+        vals, _ = _pairing_values(case, dec[1], f)
+        order = np.argsort(vals)[::-1]
+        top, second = vals[order[0]], vals[order[1]]
+        third = vals[order[2]] if len(vals) > 2 else -np.inf
+        scale = max(abs(top), 1e-300)
+        return (top - second) / scale, (top - third) / scale, int(order[0]), int(order[1]), dec
+
+    # walk away from the boundary on either side (distances growing
+    # geometrically from the resolution of the bisection) until the reference
+    # criterion separates the two best candidates by 3e-10..3e-9 relative
+    target = None
+    sides = [(-1, lo), (1, hi)]
+    if d.bool():
+        sides.reverse()
+    for sign, edge in sides:
+        dist = max(abs(edge), 1e-3) * 4e-16
+        for _ in range(80):
+            dist *= 1.6
+            s = edge + sign * dist
+            if not 0.0 < s < 1.0:
+                break
+            mg = margin(s)
+            if mg is None:
+                break
+            gap, gap3, top, second, dec = mg
+            if 3e-10 <= gap <= 3e-9:
+                target = (s, gap, gap3, top, second, dec)
+                break
+            if gap > 1e-7:
+                break
+        if target is not None:
+            break
+    if target is None:
+        raise Borderline('no start with a gap of 1e-9 found next to the boundary')
+    s, gap, gap3, top, second, dec = target
+    if {top, second} != {i_lo, i_hi} or gap3 < 1e-6:
+        raise Borderline('a third pairing is close as well')
+    # every other bin must be far from its own boundary
+    for g in range(case.lead[0]):
+        if g != f:
+            v, _ = _pairing_values(case, dec[1], g)
+            v = np.sort(v)[::-1]
+            if (v[0] - v[1]) / max(abs(v[0]), 1e-300) < 1e-6:
+                raise Borderline('another bin is close to a boundary')
+    case.init = start(s)
+    ctx.describe(boundary_at=lo, start_at=s, relative_gap=gap, bin=f)
+    ctx.label('gap=1e-9')
+    m0 = ctx.lib(mm.fit, case, allow_if=mm.explicit_refusal)
+    if mm.ill_conditioned(m0, case):
+        raise Borderline('fit sits on a numerical guard')
+    perms = [list(p) for p in itertools.permutations(range(case.K))][1:]
+    checked = _relabelled_fits(ctx, case, kind, m0, perms)
+    ctx.nontrivial(checked > 0)
